@@ -339,6 +339,70 @@ pub fn c01_pins() -> Vec<Pin> {
             expect: &[("r", 5)],
         },
         Pin {
+            name: "signed_array_element_variable_subscript",
+            src: "signed char sa[4]; unsigned char i; short s, t; void main() { sa[1] = -2; i = 1; s = sa[i]; t = sa[i] + 1; }",
+            init: &[],
+            x: 0,
+            y: 0,
+            expect: &[("s", 65534), ("t", 65535)],
+        },
+        Pin {
+            name: "return_postincrement",
+            src: "unsigned char i, t, r; unsigned char nxt() { return i++; } void main() { i = 0; r = 0; t = nxt(); if (t) r = 1; t = nxt(); if (t) r |= 2; }",
+            init: &[],
+            x: 0,
+            y: 0,
+            expect: &[("i", 2), ("r", 2)],
+        },
+        Pin {
+            name: "carry_after_register_step",
+            src: "unsigned char a, b, r, q; void main() { a = 1; b = 2; X = 5; q = 0; r = a - b; X--; if (X >= 1) q = 1; }",
+            init: &[],
+            x: 0,
+            y: 0,
+            expect: &[("q", 1)],
+        },
+        Pin {
+            name: "signed_return_value",
+            src: "signed char g; unsigned char r; signed char f() { return g; } void main() { g = -3; r = 0; if (f() < 2) r = 1; }",
+            init: &[],
+            x: 0,
+            y: 0,
+            expect: &[("r", 1)],
+        },
+        Pin {
+            name: "flags_after_16bit_increment",
+            src: "short w; unsigned char r; void main() { r = 0; w = 0x7f; w++; if (w < 0) r = 4; }",
+            init: &[],
+            x: 0,
+            y: 0,
+            expect: &[("r", 0)],
+        },
+        Pin {
+            name: "flags_after_sty_indexed",
+            src: "unsigned char t[4]; unsigned char a, r; void main() { r = 0; a = 0; X = 1; Y = 7; t[X] = a; t[X] = Y; if (t[X]) r = 2; }",
+            init: &[],
+            x: 0,
+            y: 0,
+            expect: &[("r", 2)],
+        },
+        Pin {
+            name: "truth_of_indexed_short_element",
+            src: "short s[4]; unsigned char r; void main() { r = 0; X = 1; s[1] = 0x0100; if (s[X]) r = 1; Y = 1; if (!s[Y]) r = 9; }",
+            init: &[],
+            x: 0,
+            y: 0,
+            expect: &[("r", 1)],
+        },
+        Pin {
+            name: "compound_assignment_on_pointer_element",
+            src: "char *pp[2]; unsigned char arr[4]; char *q; void main() { pp[1] = arr; pp[1] += 255; pp[1] += 5; q = pp[1]; }",
+            init: &[],
+            x: 0,
+            y: 0,
+            expect: &[("q", 0x85 + 260)],
+        },
+        Pin {
             name: "short_array_rmw_incdec",
             src: "short sa[4]; short s, t; void main() { sa[2] = 0x0100; --sa[2]; s = sa[2]; Y = 1; sa[Y] = 0x01ff; sa[Y]++; t = sa[1]; }",
             init: &[],
